@@ -814,7 +814,11 @@ func genCompileCases(tier string, emit func(op string, fields ...string)) {
 		sort.Strings(names)
 		depth := 1 + rng.Intn(4)
 		src := genProgram(names, depth, i%5 == 0)
-		emit("COMPILE", hexs(src), fmtParams(ps))
+		pf := fmtParams(ps)
+		if ps == nil && rng.Intn(3) == 0 {
+			pf = "0" // zero options value (nil map) instead of nil options
+		}
+		emit("COMPILE", hexs(src), pf)
 	}
 	// corrupted programs: either/or contract, no panic
 	for i := 0; i < n/2; i++ {
@@ -844,6 +848,11 @@ func genCompileCases(tier string, emit func(op string, fields ...string)) {
 		for _, ps := range paramSets {
 			emit("COMPILESEQ", hexs(pr[0]), hexs(pr[1]), fmtParams(ps))
 		}
+		emit("COMPILESEQ", hexs(pr[0]), hexs(pr[1]), "0")
+	}
+	for _, s := range compileCorpus {
+		emit("COMPILE", hexs(s), "0")
+		emit("COMPILE", hexs(s), "=")
 	}
 	for i := 0; i < n/20; i++ {
 		ps := pick(paramSets)
